@@ -406,7 +406,62 @@ type Case struct {
 	Tasks []Task `json:"tasks,omitempty"`
 	RFail []int  `json:"rfail"`
 	AFail []int  `json:"afail"`
+	Fix   Fixes  `json:"fix"`
 	Obs   any    `json:"obs"`
+}
+
+// Fixes says which of the proposed repairs the tree under test contains.  It is probed on the
+// real code at the start of every run (never taken from a stored case): the model is told
+// which variant of the code it faces, the specification is evaluated regardless.
+type Fixes struct {
+	Weights  bool `json:"weights"`  // F15: AddOrUpdateVirtualServer does not enable reloads by itself
+	UAB      bool `json:"uab"`      // F16c: updateAllConfigsOnBatch is reset when a batch ends
+	BatchRep bool `json:"batchrep"` // F16b: a failed batch-end reload is reported on the resources
+	EndpRep  bool `json:"endprep"`  // F16d: a failed endpoints update is reported on the resources
+}
+
+func probeFixes() (Fixes, error) {
+	var f Fixes
+	// F15
+	m := newRecMgr(nil, nil)
+	cnf, err := configs.VerifC12NewConfigurator(repoDir(), m, true, true)
+	if err != nil {
+		return f, err
+	}
+	r := Res{Kind: "vs", Name: "w"}
+	if _, err := cnf.AddOrUpdateVirtualServer(buildVS(r)); err != nil {
+		return f, err
+	}
+	f.Weights = !cnf.VerifC12ReloadsEnabled()
+	ing := func(n, act string, sv, q int) Task { return Task{Kind: "ingress", Name: n, Act: act, SV: sv, QLen: q} }
+	run := func(rfail []int, ts []Task) ([]SyncObs, error) {
+		c := Case{Fam: "ctl", RFail: rfail, AFail: []int{}, Tasks: ts}
+		runCtl(&c)
+		o, ok := c.Obs.([]SyncObs)
+		if !ok || len(o) != len(ts) {
+			return nil, fmt.Errorf("probe failed: %v", c.Obs)
+		}
+		return o, nil
+	}
+	// F16c
+	o, err := run([]int{}, []Task{ing("a", "set", 0, 0), {Kind: "configmap", Name: "nginx-config", Act: "set", MV: 1, QLen: 2}, ing("a", "touch", 0, 0)})
+	if err != nil {
+		return f, err
+	}
+	f.UAB = !o[2].UAB
+	// F16b
+	o, err = run([]int{1}, []Task{ing("a", "set", 0, 0), ing("a", "set", 1, 2), ing("b", "set", 0, 0)})
+	if err != nil {
+		return f, err
+	}
+	f.BatchRep = o[2].Reported
+	// F16d
+	o, err = run([]int{1}, []Task{ing("a", "set", 0, 0), {Kind: "endpointslice", Name: "a-svc", Act: "set", EV: 1, QLen: 0}})
+	if err != nil {
+		return f, err
+	}
+	f.EndpRep = o[1].Reported
+	return f, nil
 }
 
 func errClass(errs ...error) string {
@@ -772,9 +827,15 @@ func main() {
 			cases = append(cases, genCtl(base.Fork(uint64(1_000_000+i)), len(cases)))
 		}
 	}
+	fixes, err := probeFixes()
+	if err != nil {
+		fmt.Fprintln(os.Stderr, "c12: cannot probe the tree under test:", err)
+		os.Exit(2)
+	}
 	for i := range cases {
 		c := &cases[i]
 		c.Obs = nil
+		c.Fix = fixes
 		switch c.Fam {
 		case "cfg":
 			runCfg(c)
